@@ -104,12 +104,14 @@ type ServerSide struct {
 	Middleware2Saw       string `json:"middleware2_saw,omitempty"` // operation name the second middleware of the chain was handed
 	SecurityCalls        int    `json:"security_calls"`
 	// the user's own NotFound / MethodNotAllowed handlers (installed in half of the typed scenarios) were called
-	CustomNotFound int    `json:"custom_not_found,omitempty"`
-	CustomNotAllow int    `json:"custom_method_not_allowed,omitempty"`
-	Allow          string `json:"allow,omitempty"`
-	Marker         string `json:"marker,omitempty"` // the handler's marker header, if the response carries it
-	Returned       bool   `json:"returned"`
-	TempFiles      int    `json:"temp_files"` // multipart parts that ogen handed over as *os.File (spilled to disk)
+	SecurityRefused bool   `json:"security_refused,omitempty"` // the application's security handler refused (or could not check) the credential
+	NewErrorStatus  int    `json:"new_error_status,omitempty"` // the status the application's NewError chose for this request's failure
+	CustomNotFound  int    `json:"custom_not_found,omitempty"`
+	CustomNotAllow  int    `json:"custom_method_not_allowed,omitempty"`
+	Allow           string `json:"allow,omitempty"`
+	Marker          string `json:"marker,omitempty"` // the handler's marker header, if the response carries it
+	Returned        bool   `json:"returned"`
+	TempFiles       int    `json:"temp_files"` // multipart parts that ogen handed over as *os.File (spilled to disk)
 }
 
 type srvKey struct{}
